@@ -354,11 +354,26 @@ def replay_compile(prop, rd):
         raise Inconclusive("compile replay failed outside the program")
     return True, pr.stdout[-3000:]
 
+def prune_target(limit_gb=30):
+    """The shared cargo target directory accumulates one set of artifacts per content hash of every generated batch
+    crate and per location of the repository under test (VERIF_REPO). Past the limit it is removed as a whole; the next
+    build recreates what it needs (about a minute)."""
+    deps = os.path.join(TARGET, "debug", "deps")
+    if not os.path.isdir(deps):
+        return
+    try:
+        total = sum(os.path.getsize(os.path.join(deps, f)) for f in os.listdir(deps))
+    except OSError:
+        return
+    if total >= limit_gb * (1 << 30):
+        shutil.rmtree(os.path.join(TARGET, "debug"), ignore_errors=True)
+
 
 def progfuzz(prop, tier, seed, replay=None):
     cfg = PROGFUZZ[prop]
     t0 = time.time()
     tcfg = cfg[tier]
+    prune_target()
     out = os.path.join(WORK, prop)
     os.makedirs(out, exist_ok=True)
     vgen = build_engine_bin("vgen")
